@@ -74,6 +74,24 @@ func newC15EnvLimits(idle, head, tlsHs, pp time.Duration, only ...string) *c15En
 		if d, ok := env.slow.Load(req.Target); ok {
 			time.Sleep(d.(time.Duration))
 		}
+		if hasToken(req.get("Connection"), "upgrade") {
+			// a protocol switch (answered after the delay above): then whatever arrives is echoed until the client ends it
+			io.WriteString(w, "HTTP/1.1 101 Switching Protocols\r\nConnection: Upgrade\r\nUpgrade: echo\r\n\r\n")
+			if c, ok := w.(net.Conn); ok {
+				c.SetDeadline(time.Now().Add(10 * time.Second))
+				buf := make([]byte, 64)
+				for {
+					n, err := c.Read(buf)
+					if n > 0 {
+						c.Write(buf[:n])
+					}
+					if err != nil {
+						break
+					}
+				}
+			}
+			return true
+		}
 		if strings.Contains(req.Target, "/big-run-") {
 			// a body larger than any socket buffer on the way
 			fmt.Fprintf(w, "HTTP/1.1 200 OK\r\nContent-Type: application/octet-stream\r\nContent-Length: %d\r\n\r\n", c11BigBody)
@@ -239,6 +257,11 @@ func (env *c15Env) walkDC(st string, upTo int, partial bool, path string, slowOr
 				}
 			case inner:
 				w.writeHead([]byte("GET "+path+" HTTP/1.1\r\nHost: origin.test\r\n\r\n"), dwell)
+			case dwell:
+				// the dwelling peer is an old client as well: a POST whose body is followed by an empty line, all in one
+				// write (RFC 9112 2.2) - the empty line is not the beginning of a request, the idle wait that follows is
+				// an idle wait (Timeouts.tla: the phase after "rt" is "idle" whatever was buffered)
+				w.writeHead([]byte("POST http://origin.test"+path+" HTTP/1.1\r\nHost: origin.test\r\nContent-Length: 5\r\n\r\nhello\r\n"), dwell)
 			default:
 				w.writeHead([]byte("GET http://origin.test"+path+" HTTP/1.1\r\nHost: origin.test\r\n\r\n"), dwell)
 			}
